@@ -10,6 +10,11 @@
 import ClairModel.Proofs.Match
 import ClairModel.Proofs.MatchProto
 import ClairModel.Proofs.EnrichProto
+import ClairModel.Proofs.MatchFan
+import ClairModel.Proofs.MatchSetup
+import ClairModel.Proofs.MatchStore
+import ClairModel.Proofs.MatchWF
+import ClairModel.Proofs.MatchLink
 
 -- every variable of a property statement is bound explicitly: a misspelt name is an error, not a new variable
 set_option autoImplicit false
@@ -625,5 +630,330 @@ theorem enrich_nothing_lost (lim : Nat) (es : List Nat) (ops : List Op)
   final_uncancelled (reachable_inv lim es ops) hf hc
 
 end Enrichment
+
+/-! ## The goroutine structure of Match (the older entry point)
+
+  Model/MatchFan.lean: a fan-out goroutine that starts one goroutine per
+  matcher and waits on a `sync.WaitGroup`, the matcher goroutines, the caller's
+  collecting loop over `ctrlC` (capacity `lim`).  The theorems hold for every
+  `lim ≥ 1`, any number of matchers, every interleaving and every pattern of
+  matcher failures.  Tied to match.go by controlled-schedule runs through the
+  hook points `mt.*`. -/
+
+section Fan
+open ClairModel.MatchFan
+
+/-- `ctrlC` is never sent on after its close and never closed twice. -/
+theorem fan_no_send_on_closed (lim n : Nat) (ops : List Op) :
+    (Sm.run step (init lim n) ops).panicked = false ∧
+      ∀ op, (step (Sm.run step (init lim n) ops) op).2 ≠ .panic :=
+  never_panics lim n ops
+
+/-- `ctrlC` is closed exactly once, exactly when the fan-out goroutine has
+    returned (which every final state has). -/
+theorem fan_close_once (lim n : Nat) (ops : List Op) :
+    ((Sm.run step (init lim n) ops).closes = if (Sm.run step (init lim n) ops).fan = .done then 1 else 0) ∧
+      (final (Sm.run step (init lim n) ops) = true → (Sm.run step (init lim n) ops).closes = 1) := by
+  refine ⟨close_once lim n ops, fun hf => ?_⟩
+  rw [close_once]
+  simp only [final, Bool.and_eq_true, beq_iff_eq] at hf
+  simp [hf.1.1]
+
+/-- The WaitGroup counter is the number of matcher goroutines that have not
+    returned (started or not): `wg.Wait` returns only after the last send. -/
+theorem fan_waitgroup_counts (lim n : Nat) (ops : List Op) :
+    (Sm.run step (init lim n) ops).wg = ((Sm.run step (init lim n) ops).gs.filter fun g => !gDone g).length :=
+  wg_counts lim n ops
+
+/-- Deadlock freedom of `Match`: while some goroutine has not returned, some
+    transition can happen. -/
+theorem fan_deadlock_free (lim n : Nat) (hlim : 0 < lim) (ops : List Op)
+    (hnf : final (Sm.run step (init lim n) ops) = false) :
+    ∃ op, (step (Sm.run step (init lim n) ops) op).2 = .ok :=
+  deadlock_free lim n hlim ops hnf
+
+/-- Termination bound (controllers are assumed to return: `finish` is a
+    transition): at most `4·|matchers| + 3` transitions. -/
+theorem fan_terminates (lim n : Nat) (ops : List Op) (h : allOk (init lim n) ops = true) :
+    ops.length ≤ 4 * n + 3 :=
+  run_length_bound lim n ops h
+
+/-- Nothing lost, nothing duplicated: when `Match` returns, every matcher's
+    result has been folded into the report exactly once or its error has been
+    recorded exactly once. -/
+theorem fan_nothing_lost (lim n : Nat) (ops : List Op)
+    (hf : final (Sm.run step (init lim n) ops) = true) :
+    ((Sm.run step (init lim n) ops).collected ++ (Sm.run step (init lim n) ops).errs).Perm (List.range n) :=
+  final_partition lim n ops hf
+
+/-- At every moment the recorded errors are exactly the goroutines that
+    returned with an error, and the results buffered or collected are exactly
+    the goroutines that completed their send. -/
+theorem fan_errors_are_failures (lim n : Nat) (ops : List Op) :
+    (Sm.run step (init lim n) ops).errs.Perm (indicesOf .doneErr (Sm.run step (init lim n) ops).gs) ∧
+    ((Sm.run step (init lim n) ops).buf ++ (Sm.run step (init lim n) ops).collected).Perm
+      (indicesOf .doneOk (Sm.run step (init lim n) ops).gs) :=
+  ⟨errs_exact lim n ops, sent_exact lim n ops⟩
+
+/-- Protocol and functional model meet: when `Match` returns after a run in
+    which exactly the controllers that fail recorded an error, the report built
+    from the results in the order they were received is `matchAll`'s report
+    (same table, same ids under every package up to order) and the number of
+    joined errors is `matchAll`'s — for every interleaving. -/
+theorem fan_report_is_functional (lim : Nat) (ops : List Op) (c : Bool) (store : Store) (ms : List Matcher)
+    (recs : List Record)
+    (hf : final (Sm.run step (init lim ms.length) ops) = true)
+    (hagree : ∀ i, i < ms.length →
+      (i ∈ (Sm.run step (init lim ms.length) ops).errs ↔ outAt c store ms recs i = none))
+    (hfun : IdFunctional (((runAll c store ms recs).filterMap id).flatMap events)) :
+    (∀ id, find id (collectOuts ((Sm.run step (init lim ms.length) ops).collected.filterMap (outAt c store ms recs))).vulns
+        = find id (matchAll c store ms recs).1.vulns) ∧
+    (∀ pkg, (getL pkg (collectOuts ((Sm.run step (init lim ms.length) ops).collected.filterMap (outAt c store ms recs))).pkgVulns).Perm
+        (getL pkg (matchAll c store ms recs).1.pkgVulns)) ∧
+    (Sm.run step (init lim ms.length) ops).errs.length = (matchAll c store ms recs).2 := by
+  obtain ⟨hp, hl⟩ := partition_link (outAt c store ms recs) (fan_nothing_lost lim ms.length ops hf) hagree
+  rw [matchAll_as_range]
+  have hfun' : IdFunctional (((List.range ms.length).filterMap (outAt c store ms recs)).flatMap events) := by
+    have : (runAll c store ms recs).filterMap id = (List.range ms.length).filterMap (outAt c store ms recs) := by
+      rw [runAll_as_range, List.filterMap_map]; rfl
+    rw [← this]; exact hfun
+  have h := arrival_order_irrelevant _ _ hp.symm hfun'
+  exact ⟨fun id => (h.1 id).symm, fun pkg => (h.2 pkg).symm, hl⟩
+
+end Fan
+
+/-! ## Which matchers a scan runs (libvuln.New, matchers.NewMatchers)
+
+  Model/MatchSetup.lean.  Tied to libvuln/libvuln.go, matchers/*.go by the
+  `new` / `scan new` protocol lines: the harness registers scripted factories
+  in the real registry and calls the real `libvuln.New`. -/
+
+section Setup
+open ClairModel.MatchSetup
+
+/-- The constructed matcher set is exactly: the out-of-tree matchers, plus
+    what every registered factory that `MatcherNames` enables builds (a nil
+    `MatcherNames` enables all; a name that is not registered enables nothing). -/
+theorem constructed_matchers_exact (reg : List (Factory Matcher)) (en : Option (List String)) (cfgs : List String)
+    (oot ms : List Matcher) (h : newMatchers reg en cfgs oot = some ms) (m : Matcher) :
+    m ∈ ms ↔ m ∈ oot ∨ ∃ f ∈ reg, enabledBy en f.name = true ∧
+      ∃ l, f.build (configured cfgs f) = some l ∧ m ∈ l :=
+  mem_newMatchers h m
+
+/-- Construction fails exactly when an enabled, configurable factory that has
+    a configuration block rejects it. -/
+theorem construction_fails_iff (reg : List (Factory Matcher)) (en : Option (List String)) (cfgs : List String)
+    (oot : List Matcher) :
+    newMatchers reg en cfgs oot = none ↔
+      ∃ f ∈ reg, enabledBy en f.name = true ∧ f.configurable = true ∧ cfgs.contains f.name = true ∧
+        f.configureOk = false :=
+  newMatchers_none_iff reg en cfgs oot
+
+/-- An empty, non-nil `MatcherNames` runs the out-of-tree matchers only. -/
+theorem no_names_only_out_of_tree (reg : List (Factory Matcher)) (cfgs : List String) (oot : List Matcher) :
+    newMatchers reg (some []) cfgs oot = some oot :=
+  newMatchers_enabled_nil reg cfgs oot
+
+/-- A factory whose `Matcher(ctx)` fails is left out and construction still
+    succeeds (logged by the code: "failed constructing factory, excluding from
+    run"); the scan then runs without its matchers. -/
+theorem unbuildable_factory_is_left_out (f : Factory Matcher) (hb : ∀ b, f.build b = none)
+    (hc : f.configurable = false) (oot : List Matcher) :
+    newMatchers [f] none [] oot = some oot := by
+  simp [newMatchers, withEnabled, enabledBy, configureFails, configured, hc, contribution, hb]
+
+/-- `libvuln.New` fails exactly on a missing store, a missing client, an
+    update retention of 1 or below 0, or a failing matcher construction. -/
+theorem new_validates_options (reg : List (Factory Matcher)) (o : Options Matcher) :
+    libvulnNew reg o = none ↔
+      (o.hasStore = false ∨ o.hasClient = false ∨ o.updateRetention = 1 ∨ o.updateRetention < 0 ∨
+        newMatchers reg o.matcherNames o.matcherConfigs o.matchers = none) :=
+  libvulnNew_none_iff reg o
+
+/-- The report of `Scan` on a `Libvuln` made by `New` is the union over
+    exactly the constructed set: an id is listed under a package iff a matcher
+    that is out-of-tree or built by an enabled factory returned it there. -/
+theorem scan_is_union_over_constructed (reg : List (Factory Matcher)) (o : Options Matcher) (es : List Enricher)
+    (c : Bool) (store : Store) (recs : List Record) (r : Report) (em : List (Nat × List Nat))
+    (h : newAndScan reg o es c store recs = some (some (r, em))) (pkg id : Nat) :
+    id ∈ getL pkg r.pkgVulns ↔
+      ∃ m, (m ∈ o.matchers ∨ ∃ f ∈ reg, enabledBy o.matcherNames f.name = true ∧
+              ∃ l, f.build (configured o.matcherConfigs f) = some l ∧ m ∈ l) ∧
+        ∃ out, controllerMatch false store m recs = some out ∧ ∃ v, (pkg, v) ∈ events out ∧ v.id = id := by
+  unfold newAndScan at h
+  cases hn : libvulnNew reg o with
+  | none => simp [hn] at h
+  | some ms =>
+    simp only [hn, Option.map_some, Option.some.injEq] at h
+    have hmem := mem_newMatchers (libvulnNew_some hn).2.2.2
+    rw [report_is_union c store ms es recs r em h]
+    constructor
+    · rintro ⟨m, hm, rest⟩; exact ⟨m, (hmem m).1 hm, rest⟩
+    · rintro ⟨m, hm, rest⟩; exact ⟨m, (hmem m).2 hm, rest⟩
+
+/-- The iteration order of the registry map (and hence the order of the
+    matcher slice) does not change the outcome: same success of `New` and of
+    the scan, same table, same ids under every package up to order. -/
+theorem registry_order_irrelevant (reg reg' : List (Factory Matcher)) (hp : reg.Perm reg') (o : Options Matcher)
+    (es : List Enricher) (c : Bool) (store : Store) (recs : List Record)
+    (hfun : ∀ ms, libvulnNew reg o = some ms →
+      IdFunctional (((runAll false store ms recs).filterMap id).flatMap events)) :
+    ((newAndScan reg o es c store recs).isSome = (newAndScan reg' o es c store recs).isSome) ∧
+    ∀ x y, newAndScan reg o es c store recs = some x → newAndScan reg' o es c store recs = some y →
+      x.isSome = y.isSome ∧
+      ∀ r em r' em', x = some (r, em) → y = some (r', em') →
+        (∀ id, find id r.vulns = find id r'.vulns) ∧ (∀ pkg, (getL pkg r.pkgVulns).Perm (getL pkg r'.pkgVulns)) := by
+  have hnew : ∀ reg₀ : List (Factory Matcher), libvulnNew reg₀ o =
+      if !o.hasStore then none
+      else if o.updateRetention == 1 || o.updateRetention < 0 then none
+      else if !o.hasClient then none
+      else newMatchers reg₀ o.matcherNames o.matcherConfigs o.matchers := fun _ => rfl
+  obtain ⟨hs, hperm⟩ := newMatchers_perm hp o.matcherNames o.matcherConfigs o.matchers
+  have hsome : (libvulnNew reg o).isSome = (libvulnNew reg' o).isSome := by
+    rw [hnew reg, hnew reg']
+    split
+    · rfl
+    · split
+      · rfl
+      · split
+        · rfl
+        · exact hs
+  have hp2 : ∀ a b, libvulnNew reg o = some a → libvulnNew reg' o = some b → a.Perm b := fun a b ha hb =>
+    hperm a b (libvulnNew_some ha).2.2.2 (libvulnNew_some hb).2.2.2
+  constructor
+  · simp only [newAndScan, Option.isSome_map]; exact hsome
+  · intro x y hx hy
+    unfold newAndScan at hx hy
+    cases ha : libvulnNew reg o with
+    | none => simp [ha] at hx
+    | some a =>
+      cases hb : libvulnNew reg' o with
+      | none => simp [hb] at hy
+      | some b =>
+        simp only [ha, hb, Option.map_some, Option.some.injEq] at hx hy
+        subst hx; subst hy
+        have := enrichedMatch_perm (c := c) es (hp2 a b ha hb) (hfun a ha)
+        refine ⟨this.1, ?_⟩
+        intro r em r' em' h1 h2
+        exact this.2 r em r' em' h1 h2
+
+end Setup
+
+/-! ## The stub store's contract (datastore.Vulnerability.Get)
+
+  Model/MatchStore.lean: the store of the harness, the same function the model
+  driver answers with.  Stated and proved here instead of living in the driver. -/
+
+section StubStore
+open ClairModel.MatchStore
+
+/-- Per package every vulnerability id is answered at most once, and the
+    answer is a map (distinct keys). -/
+theorem store_answers_once_per_package (rows : List Row) (q : List Nat) (db : Bool) (recs : List Record) :
+    (∀ pkg, ((getL pkg (answer rows q db recs)).map (·.id)).Nodup) ∧
+      ((answer rows q db recs).map (·.1)).Nodup :=
+  ⟨answer_nodup rows q db recs, answer_keys_nodup rows q db recs⟩
+
+/-- Exactness for a table with functional ids: a vulnerability is answered
+    under a package iff it is a row that matches (name, constraints, version
+    filter) some queried record of that package. -/
+theorem store_answer_exact (rows : List Row) (hfun : RowsFunctional rows) (q : List Nat) (db : Bool)
+    (recs : List Record) (pkg : Nat) (v : Vuln) :
+    v ∈ getL pkg (answer rows q db recs) ↔
+      ∃ r ∈ recs, r.pkg = pkg ∧ ∃ row ∈ rows, rowMatches q db r row = true ∧ row.vuln = v := by
+  constructor
+  · exact answer_sound rows q db recs pkg v
+  · rintro ⟨r, hr, rfl, row, hrow, hm, rfl⟩
+    exact answer_complete rows hfun q db recs r hr row hrow hm
+
+/-- Without that hypothesis nothing is invented and no id is lost. -/
+theorem store_answer_sound_and_complete_ids (rows : List Row) (q : List Nat) (db : Bool) (recs : List Record) :
+    (∀ pkg v, v ∈ getL pkg (answer rows q db recs) →
+      ∃ r ∈ recs, r.pkg = pkg ∧ ∃ row ∈ rows, rowMatches q db r row = true ∧ row.vuln = v) ∧
+    (∀ r ∈ recs, ∀ row ∈ rows, rowMatches q db r row = true →
+      ∃ v ∈ getL r.pkg (answer rows q db recs), v.id = row.vuln.id) :=
+  ⟨answer_sound rows q db recs, fun r hr row hrow hm => answer_complete_id rows q db recs r hr row hrow hm⟩
+
+/-- The keys of the answer are the package ids of the queried records. -/
+theorem store_keys_are_queried_packages (rows : List Row) (q : List Nat) (db : Bool) (recs : List Record) (pkg : Nat) :
+    (find pkg (answer rows q db recs)).isSome = true ↔ ∃ r ∈ recs, r.pkg = pkg :=
+  answer_key_iff rows q db recs pkg
+
+/-- `Get` fails exactly on the scripted failure marker, or on the
+    honour-the-Context marker when the Context is done. -/
+theorem store_fails_iff (rows : List Row) (c : Bool) (q : List Nat) (db : Bool) (recs : List Record) :
+    storeGet rows c q db recs = none ↔
+      (q.contains cGetFails = true ∨ (c = true ∧ q.contains cRespectCtx = true)) :=
+  storeGet_none_iff rows c q db recs
+
+/-- An authoritative matcher over this store lists every id at most once
+    under a package. -/
+theorem authoritative_lists_once (rows : List Row) (c : Bool) (m : Matcher) (recs : List Record) (out : MOut)
+    (hk : m.kind = .versionFilter true) (h : controllerMatch c (storeGet rows) m recs = some out) (pkg : Nat) :
+    ((getL pkg out).map (·.id)).Nodup := by
+  unfold controllerMatch at h
+  by_cases he : (interested m recs).isEmpty = true
+  · simp only [he, if_true, Option.some.injEq] at h
+    subst h
+    simp [getL, find]
+  · simp only [he, hk, dbFilter] at h
+    cases hs : storeGet rows c m.query true (interested m recs) with
+    | none => simp [hs] at h
+    | some vulns =>
+      simp only [hs, Bool.false_eq_true, if_false, if_true, Option.some.injEq] at h
+      subst h
+      rw [storeGet_some rows c m.query true (interested m recs) vulns hs]
+      exact answer_nodup rows m.query true (interested m recs) pkg
+
+/-- With this store over a table with functional ids and no remote matcher,
+    the "functional ids" hypothesis of `collect_perm` /
+    `arrival_order_irrelevant` holds: the report does not depend on the order
+    of the matcher slice nor on the arrival order of the results. -/
+theorem stub_store_schedule_independent (rows : List Row) (hfun : RowsFunctional rows) (c : Bool)
+    (ms ms' : List Matcher) (es : List Enricher) (recs : List Record) (hp : ms.Perm ms')
+    (hloc : ∀ m ∈ ms, m.kind ≠ .remote) :
+    ((enrichedMatch c (storeGet rows) ms es recs).isSome = (enrichedMatch c (storeGet rows) ms' es recs).isSome) ∧
+      ∀ r em r' em', enrichedMatch c (storeGet rows) ms es recs = some (r, em) →
+        enrichedMatch c (storeGet rows) ms' es recs = some (r', em') →
+        (∀ id, find id r.vulns = find id r'.vulns) ∧
+        (∀ pkg, (getL pkg r.pkgVulns).Perm (getL pkg r'.pkgVulns)) :=
+  MatchSetup.enrichedMatch_perm es hp (stub_events_functional rows hfun false ms recs hloc)
+
+end StubStore
+
+/-! ## Well-formedness of the vulnerability report (vulnerabilityreport.go) -/
+
+/-- The invariant of the collector loop: each execution of its body
+    (`Vulnerabilities[v.ID] = v`, `PackageVulnerabilities[pkg] = append(…, v.ID)`)
+    keeps the report well formed — both tables are maps, a table key is the
+    vulnerability's id, every listed id resolves, every table entry is listed,
+    no package key has an empty list. -/
+theorem collector_keeps_report_well_formed (r : Report) (e : Nat × Vuln) (h : WellFormed r) :
+    WellFormed (collectStep r e) :=
+  wellFormed_step r e h
+
+/-- Every report `EnrichedMatch` / `Scan` returns is well formed, and its
+    enrichment map is a map keyed by the kind of an enricher that answered,
+    without empty message lists, holding a key for every enricher that
+    reported something. -/
+theorem report_well_formed (c : Bool) (store : Store) (ms : List Matcher) (es : List Enricher)
+    (recs : List Record) (r : Report) (em : List (Nat × List Nat))
+    (h : enrichedMatch c store ms es recs = some (r, em)) :
+    WellFormed r ∧ EnrichWF (enrichEntries es r) em ∧ ∀ kv ∈ em, ∃ e ∈ es, e.kind = kv.1 := by
+  obtain ⟨_, _, _, hr, hem⟩ := enrichedMatch_some h
+  subst hr; subst hem
+  have hwf := enrichWF_collect _
+    (enrichEntries_nonempty es (collectOuts ((runAll false store ms recs).filterMap id)))
+  refine ⟨wellFormed_collectOuts _, hwf, ?_⟩
+  intro kv hkv
+  obtain ⟨e, he, hk⟩ := hwf.keyIsKind kv hkv
+  obtain ⟨en, hen, hkind⟩ := enrichEntries_kind es _ e he
+  exact ⟨en, hen, hkind.trans hk⟩
+
+/-- The report `Match` returns is well formed even when it is partial
+    (returned together with joined errors). -/
+theorem match_report_well_formed (c : Bool) (store : Store) (ms : List Matcher) (recs : List Record) :
+    WellFormed (matchAll c store ms recs).1 :=
+  wellFormed_collectOuts _
 
 end ClairModel.Props.C05
